@@ -15,8 +15,8 @@ def fixDate (d : Int) : Int := if d = -635 then 1970001 else d
 def decodeTflag (flags : List (Int × Int)) : List Int :=
   flags.map (fun (d, t) => decJ (fixDate d) t)
 
-/-- TSTEP seconds as the `bounds=True` part of the TFLAG branch reads it -/
-def tstepSecondsB (T : Int) : Int := T / 10000 * 3600 + T % 10000 / 100 * 60 + T % 100
+/-- TSTEP seconds as the `bounds=True` part of the TFLAG branch reads it (repaired code: as the attribute branch does) -/
+def tstepSecondsB (T : Int) : Int := tstepSeconds T
 
 def meanDiff (l : List Rat) : Rat :=
   let d := List.zipWith (· - ·) (l.drop 1) l
